@@ -93,7 +93,16 @@ func c18Values(r *core.Rand) []sharedValue {
 		}
 		if d, _, err := destination.ReadDestination(enc); err == nil {
 			d := d
-			add(fmt.Sprintf("Destination/parsed%d", i), &d, func() string { return fmt.Sprint(d.Equals(&d)) })
+			secret := r.Bytes(32)
+			add(fmt.Sprintf("Destination/parsed%d", i), &d, func() string { return fmt.Sprint(d.Equals(&d)) }, func() string {
+				// blinding takes the destination by value and derives a new one: a read of the original
+				bd, err := encrypted_leaseset.CreateBlindedDestination(d, secret, time.Unix(1700000000, 0))
+				if err != nil {
+					return "refused"
+				}
+				b, _ := bd.Bytes()
+				return fmt.Sprintf("%x", sha256.Sum256(b))
+			})
 		}
 		if d, ok, err := lib.BuildDestination(m); ok && err == nil {
 			add(fmt.Sprintf("Destination/constructed%d", i), d)
@@ -210,7 +219,7 @@ func c18Values(r *core.Rand) []sharedValue {
 		if ls, _, err := meta_leaseset.ReadMetaLeaseSet(scm.bytes); err == nil {
 			ls := ls
 			add(fmt.Sprintf("MetaLeaseSet/parsed%d", i), &ls, func() string {
-				return fmt.Sprint(len(ls.SortEntriesByCost()), len(ls.FindEntriesByType(3)))
+				return fmt.Sprint(len(ls.SortEntriesByCost()), len(ls.FindEntriesByType(3)), len(ls.FindEntriesByType(1)), len(ls.FindEntriesByType(5)), len(ls.FindEntriesByType(0)))
 			})
 		}
 		sce := signedELS(r, 7, off, 7)
@@ -295,6 +304,21 @@ func c18Values(r *core.Rand) []sharedValue {
 	l2.Leases = []rm.Lease2{gen.Lease2(r), gen.Lease2(r)}
 	if ls, ok, err := lib.BuildLeaseSet2(l2, priv); ok && err == nil {
 		add("LeaseSet2/constructed", ls)
+	}
+	// a LeaseSet2 constructed with "no options" said as the zero Mapping (what the constructor's
+	// documentation allows): accessors that normalise lazily write to the shared value
+	if d, ok, err := lib.BuildDestination(l2.Dest); ok && err == nil {
+		var leases []lease.Lease2
+		for _, x := range l2.Leases {
+			if ll, err := lib.BuildLease2(x); err == nil {
+				leases = append(leases, *ll)
+			}
+		}
+		keys := []lease_set2.EncryptionKey{{KeyType: 4, KeyLen: 32, KeyData: r.Bytes(32)}}
+		if ls, err := lease_set2.NewLeaseSet2(*d, 1700000000, 600, 0, nil, data.Mapping{}, keys, leases, priv); err == nil {
+			ls := ls
+			add("LeaseSet2/constructed-zero-options", &ls)
+		}
 	}
 	em, _ := gen.EncryptedLeaseSet(r)
 	em.SigType, em.BlindedKey, em.Offline, em.Flags = 7, key.Pub, nil, 0
